@@ -7187,7 +7187,13 @@ fn widen_folded_breaks(decoded: &str, explicit_indent_used: bool) -> Cow<'_, str
             result.push_str(&decoded[run_start..i]);
             if !is_trailing_run {
                 let next_more_indented = matches!(bytes.get(i), Some(b' ' | b'\t'));
-                if !prev_more_indented && !next_more_indented {
+                // A run at the very start of the value is not between two
+                // content lines: leading blank lines of a folded scalar are
+                // kept break for break (YAML 1.2 §8.1.3, `l-empty` before the
+                // first text line is never folded), so widening it would add
+                // one break to the value on every pass.
+                let is_leading_run = run_start == 0;
+                if !prev_more_indented && !next_more_indented && !is_leading_run {
                     result.push('\n');
                 }
             }
